@@ -26,6 +26,10 @@ pub struct Config {
     pub set_cap0: Vec<usize>,
     /// full contents comparison every n steps (1 = after every step)
     pub full_check_every: u32,
+    /// "logic-error keys": Hash and Eq of the keys are inconsistent over time (as with a key
+    /// mutated while stored). `Some(seed)`: see `ctx::Chaos`.
+    #[serde(default, skip_serializing_if = "Option::is_none")]
+    pub chaos: Option<u64>,
 }
 
 /// A size argument, resolved against the target collection at execution time.
